@@ -563,9 +563,19 @@ func TestCheck(t *testing.T) {
 	ccs := chainCases()
 	chainDone := r.Parallel(len(ccs), func(i int) { w.chainOne(r, ccs[i], &chainExact) })
 
+	// -- contexts created by the ledger under the Verification trigger; invalid flag values
+	verifInfo := runVerif(r, w)
+	badInfo := runBadFlags(r, w)
+
 	// -- sub-checks flags + safe
 	specs := w.uSpecs()
 	sys, missingSys := w.sysSpecs()
+	if len(missingSys) > 0 {
+		// not a finding about the tree but a hole in the check: a system call was added
+		// (or renamed) and the menu has no operation that exercises it
+		fmt.Printf("CHECK-ERROR: C16 menu is incomplete: system calls registered in pkg/core/interops.go that no operation of the menu issues: %v (add a method to rawMethods() and arguments to sysArgs() in checks/c16)\n", missingSys)
+		os.Exit(3)
+	}
 	specs = append(specs, sys...)
 	specs = append(specs, w.safeUSpecs()...)
 	nat := w.nativeSpecs(cap)
@@ -648,17 +658,15 @@ func TestCheck(t *testing.T) {
 	fmt.Printf("C16: operations whose tables declare an effect that was never observed: %v\n", declGap)
 	fmt.Printf("C16: operations that never halted with f=All: %v\n", neverHalt)
 	fmt.Printf("C16: chain cases %d (exact intersection in %d); perm: %v\n", chainDone, chainExact.Get(), permInfo)
-	if len(missingSys) > 0 {
-		r.Violation("menu:system-calls-without-operation:"+strings.Join(missingSys, ","), map[string]any{"what": "system calls of the tree that the menu has no operation for", "names": missingSys})
-	}
+	grewN := flushGrew(r)
 	byFlag := map[string]string{}
 	for f := 0; f < 16; f++ {
 		byFlag[fname(f)] = fmt.Sprintf("HALT %d / FAULT %d", en.byFlag[f][0].Get(), en.byFlag[f][1].Get())
 	}
 	cov := map[string]any{
-		"states":                                      en.states.Len() + len(ccs) + int(ps.pure),
-		"transitions":                                 int(en.execs.Get()) + chainDone + int(ps.real+ps.block+ps.token+ps.entry) + btxs,
-		"traces_validated_against_impl":               int(en.execs.Get()) + chainDone + int(ps.real+ps.block+ps.token+ps.entry+ps.pure),
+		"states":                                      en.states.Len() + len(ccs) + int(ps.pure+ps.namesPure),
+		"transitions":                                 int(en.execs.Get()) + chainDone + int(ps.real+ps.block+ps.token+ps.entry+ps.names) + btxs,
+		"traces_validated_against_impl":               int(en.execs.Get()) + chainDone + int(ps.real+ps.block+ps.token+ps.entry+ps.pure+ps.names+ps.namesPure),
 		"flag_sets":                                   16,
 		"operations":                                  len(specs),
 		"operations_native_methods":                   len(nat),
@@ -683,6 +691,10 @@ func TestCheck(t *testing.T) {
 		"chain_exact_intersection":                    int(chainExact.Get()),
 		"chain_cases_halted":                          chainDone - int(chainFault.Get()),
 		"permission":                                  permInfo,
+		"verification_contexts":                       verifInfo,
+		"invalid_flag_values":                         badInfo,
+		"universal_shrink_executions_with_growth":     grewN,
+		"universal_shrink_oracle":                     "every execution in a VM the check owns (all sub-checks): whenever the executing context changes, its flags must be a subset of those of the context below it on the invocation stack",
 		"paths":                                       "direct: entry(All)->op with f; viaA: entry->UA.run(f)->op(All); viaAreq: entry->UB.run(All)->op(f); u: entry->UA.run(f)[one op of compiled code]; entry: raw system call in an entry script loaded with f",
 		"rule":                                        "every operation x every argument combination of its menu x every path x all 16 flag sets; oracle on HALTed executions: storage diff of all contracts / notification list / executed contexts vs the flags the code ran with",
 	}
@@ -887,6 +899,16 @@ func runPerm(r *vk.Run, ps *permStats) map[string]any {
 		}
 		er.loadFlags(ls)
 	}
+	// method names, overloads, textual descriptor forms, fields that must not matter (ext_names_test.go)
+	nw, err := pw.setupNames()
+	if err != nil {
+		fmt.Println("CHECK-ERROR: cannot prepare the names family:", err)
+		os.Exit(3)
+	}
+	nw.pure(r)
+	nw.jsonDesc(r)
+	nw.trusts(r)
+	nw.matrix(r, "")
 	// graceful restart on the same store: the Management cache is rebuilt from the
 	// STORED (stack item) form of every manifest; the predicate must hold as before
 	restarted := false
@@ -903,6 +925,7 @@ func runPerm(r *vk.Run, ps *permStats) map[string]any {
 		blockSubset("perm-block-after-restart")
 		er.matrix(tcs, "-after-restart")
 		er.blocks(tcs, "-after-restart", []string{"call"}, vk.Pick(r, 5, 1))
+		nw.matrix(r, "-after-restart")
 	}
 	info := map[string]any{
 		"contract_descriptors":          pw.descs,
@@ -930,6 +953,9 @@ func runPerm(r *vk.Run, ps *permStats) map[string]any {
 	info["loaded_script_flag_cells_halted"] = er.st.loadHalt
 	info["loaded_script_callee_refused_witness_of_loader"] = er.st.loadWitnessRefused
 	info["loaded_script_flags_observed"] = er.st.loadFlagsSeen
+	info["names_family"] = nw.info()
+	ps.names = nw.st.real + nw.st.token
+	ps.namesPure = nw.st.pure + nw.st.jsonDesc + nw.st.trusts
 	ps.entry = er.st.cells
 	er.flush()
 	if len(ps.witness) > 0 {
@@ -1045,6 +1071,18 @@ func replay(r *vk.Run) {
 			os.Exit(3)
 		}
 		replayLoad(r, lc)
+	case d.Sub == "universal-shrink":
+		var gc grewCase
+		_ = r.ReadReplay(&gc)
+		replayGrew(r, gc)
+	case d.Sub == "verif":
+		var vc verifCase
+		_ = r.ReadReplay(&vc)
+		replayVerif(r, vc)
+	case d.Sub == "badflags":
+		var bc badFlagCase
+		_ = r.ReadReplay(&bc)
+		replayBadFlag(r, bc)
 	case d.Sub == "chain":
 		var cc chainCase
 		if err := r.ReadReplay(&cc); err != nil {
